@@ -9,6 +9,7 @@ import Driver.Shutdown
 import Driver.Dot
 import Driver.Crash
 import Driver.Conc
+import Driver.Lua
 open Driver
 
 /-
@@ -28,5 +29,6 @@ def main (args : List String) : IO UInt32 := do
   | ["dot"] => runLoop Driver.Dot.step ()
   | ["crash"] => runLoop Driver.CrashMode.step Driver.CrashMode.init
   | ["lin"] => runLoop Driver.ConcMode.step ()
+  | ["lua"] => runLoop Driver.LuaMode.step ()
   | _ => IO.eprintln s!"unknown mode {args}"; return 2
   return 0
